@@ -32,6 +32,7 @@ props! {
     #[cfg(feature = "full")] c06 => "C06",
     #[cfg(feature = "full")] c07 => "C07",
     #[cfg(feature = "full")] c08 => "C08",
+    #[cfg(feature = "full")] c09 => "C09",
     #[cfg(feature = "full")] c10 => "C10",
     #[cfg(feature = "full")] c11 => "C11",
     #[cfg(feature = "full")] c12 => "C12",
